@@ -33,14 +33,21 @@ def optval(x):
 
 
 def opt_shape(name, old):
+    """havoc shape BY ROLE: a loop-carried variable that is None (or already an optional number) when the loop starts becomes 'None or a real number';
+    anything else gets the engine's default fresh value of its kind.  (What the code calls the variable plays no part.)"""
+    if not (old is None or isinstance(old, SymOpt)):
+        return None
     import z3
     from pyvc.sym import fresh_name
     return SymOpt(z3.Bool(fresh_name(name + ".isnone")), Sym(z3.Real(fresh_name(name))))
 
 
-def acc_inv(var, term, nonneg=False):
+def acc_inv(term, nonneg=False):
+    """invariant of a loop that folds `term` of the elements of the sequence it iterates into ONE None-initialised accumulator: None before the
+    first element, afterwards the sum of the terms so far.  The accumulator is found by role (env["@acc"]: the single loop-carried variable),
+    not by its name in the source: the invariant is a proof aid, not part of the property."""
     def inv(env, i, seq):
-        x = env[var]
+        x = env["@acc"]
         if isinstance(i, int) and i == 0:
             return isnone(x)
         cs = [SP.iff(isnone(x), i == 0)]
@@ -50,6 +57,31 @@ def acc_inv(var, term, nonneg=False):
                 cs.append(SP.implies(i > 0, optval(x) >= 0))
         return SP.conj(cs)
     return inv
+
+
+def terms_inv(env, i, seq):
+    """the same fold when the loop iterates the already-formed terms (the accumulation moved into a helper that is handed b z^2 resp. b z as a
+    generator expression): None before the first element, afterwards the sum of the first i elements of the sequence the loop iterates -- and
+    not negative if no element of that sequence is (one statement that is true of both sums, so it need not know which of the two it serves)"""
+    x = env["@acc"]
+    if isinstance(i, int) and i == 0:
+        return isnone(x)
+    cs = [SP.iff(isnone(x), i == 0)]
+    if x is not None:
+        cs.append(SP.implies(i > 0, optval(x) == SP.ssum_prefix(seq, i)))
+        cs.append(SP.implies(SP.conj([i > 0, SP.forall(seq, lambda t: t >= 0)]), optval(x) >= 0))
+    return SP.conj(cs)
+
+
+def one_none_accumulator(v):
+    """where= predicate, by shape: a for-loop with exactly one loop-carried variable, which is None when the loop starts"""
+    def pred(for_node, frame, seq):
+        try:
+            carried = v.interp.carried_names(for_node, frame)
+            return len(carried) == 1 and frame.lookup(carried[0]) is None
+        except Exception:
+            return False
+    return pred
 
 
 @harness("C18", "ionic_strength.seq", functions=[MOD + ":ionic_strength", "chempy.units:allclose"], samples=60)
@@ -73,8 +105,10 @@ def _(v):
     v.assume(SP.conj([n == (len(z) if not v.symbolic else z.sym_len()), n >= 1]))
     t_is = lambda bz: bz[0] * bz[1] * bz[1]
     t_net = lambda bz: bz[0] * bz[1]
-    v.invariant(electrolytes.ionic_strength, 0, acc_inv("tot", t_is, nonneg=True), shapes={"tot": opt_shape})
-    v.invariant(electrolytes.ionic_strength, 1, acc_inv("net", t_net), shapes={"net": opt_shape})
+    v.invariant(electrolytes.ionic_strength, 0, acc_inv(t_is, nonneg=True), shapes=opt_shape)
+    v.invariant(electrolytes.ionic_strength, 1, acc_inv(t_net), shapes=opt_shape)
+    if v.symbolic:     # offered by shape to a loop that has no invariant of its own (the two loops above extracted into one helper): proof aid only
+        v.invariant(MOD + ":ionic_strength", "accumulation of ready-made terms", terms_inv, shapes=opt_shape, where=one_none_accumulator(v))
     out = v.run(electrolytes.ionic_strength, b, z, warn=warn)
     v.prove("returns", out.returned, detail=repr(out.exc))
     if out.returned:
@@ -103,10 +137,16 @@ def _warning_obligations(v, warn, net, tot):
 
 
 def _neutrality_warnings(v):
-    """the warnings that are about charge neutrality (the events carry the message text; the category is not recorded by the engine).  Warnings
-    about anything else (a DeprecationWarning of a parser underneath, ...) are neither the warning the property asks for nor forbidden by it.
-    '<symbolic message>' is what the engine records when the text itself is not concrete: only a message that embeds the net charge can be that"""
-    return [e for e in v.events("warning") if "neutral" in str(e[1]).lower() or str(e[1]) == "<symbolic message>"]
+    """the warnings issued during the call.  The property says THAT a charge-imbalance warning is issued (or not), nothing about its wording, so the
+    message text is not read: every warning event of the call counts.  (The engine records no category; in these harnesses the charges are handed over
+    as numbers / Substance objects, so no parser or other machinery that might warn about something else runs underneath ionic_strength.)"""
+    return list(v.events("warning"))
+
+
+# categories that by their definition in the standard library are about the code (deprecations, imports, resources, syntax), not about the data
+# handed to a function: a warning of such a category (pyparsing's deprecation warnings under the formula parser, ...) is neither the warning the
+# property asks for nor forbidden by it.  Everything else that is issued during the call counts as 'a warning was issued', whatever its text
+_WARNINGS_ABOUT_THE_CODE = (DeprecationWarning, PendingDeprecationWarning, FutureWarning, ImportWarning, ResourceWarning, SyntaxWarning, BytesWarning)
 
 
 def SP_zip(a, b):
@@ -440,14 +480,14 @@ def _(v):
     from chempy.chemistry import Substance
 
     def run(f):
-        """(value or None, exception or None, number of warnings about neutrality)"""
+        """(value or None, exception or None, number of warnings about the data handed over: recognised by category, not by message text)"""
         with warnings.catch_warnings(record=True) as w:
             warnings.simplefilter("always")
             try:
                 val, exc = f(), None
             except Exception as ex:
                 val, exc = None, ex
-        return val, exc, len([x for x in w if "neutral" in str(x.message).lower()])
+        return val, exc, len([x for x in w if not issubclass(x.category, _WARNINGS_ABOUT_THE_CODE)])
 
     def check(name, f, want, want_warning):
         val, exc, nwarn = run(f)
@@ -456,7 +496,7 @@ def _(v):
             ok = ok and abs(float(val) - want) <= 1e-12 * want and ((nwarn >= 1) if want_warning else (nwarn == 0))
         except Exception as ex:
             ok, exc = False, exc or ex
-        v.prove(name, ok, detail="value %r (expected %r), %d neutrality warning(s) (expected %s), exception %r" % (val, want, nwarn, ">= 1" if want_warning else "none", exc))
+        v.prove(name, ok, detail="value %r (expected %r), %d warning(s) about the composition (expected %s), exception %r" % (val, want, nwarn, ">= 1" if want_warning else "none", exc))
 
     # charges from the formulas of the keys (substances=None)
     check("formula_keys.Mg3PO42", lambda: ionic_strength({"Mg+2": 6, "PO4-3": 4}), 30.0, False)
